@@ -17,7 +17,6 @@
 
 import logging
 import logging.config
-import os
 
 
 def warning(msg, *args, **kwargs):
@@ -82,9 +81,20 @@ def init(cfg=None):
 
     :param cfg: the config for deep.
     """
-    log_conf = "%s/logging.conf" % os.path.dirname(os.path.realpath(__file__))
-
     if cfg is not None and cfg.LOGGING_CONF:
-        log_conf = cfg.LOGGING_CONF
+        # a logging configuration the user chose explicitly is applied as it is
+        logging.config.fileConfig(fname=cfg.LOGGING_CONF, disable_existing_loggers=False)
+        return
 
-    logging.config.fileConfig(fname=log_conf, disable_existing_loggers=False)
+    # the default: configure the 'deep' logger only (as logging.conf describes it). fileConfig would also replace the
+    # level and the handlers of the ROOT logger, which belong to the application.
+    logger = logging.getLogger("deep")
+    logger.setLevel(logging.DEBUG)
+    logger.propagate = False
+    if not any(getattr(handler, "_deep_default", False) for handler in logger.handlers):
+        import sys
+        handler = logging.StreamHandler(sys.stdout)
+        handler.setLevel(logging.DEBUG)
+        handler.setFormatter(logging.Formatter("%(asctime)s - %(name)s - %(levelname)s - %(message)s"))
+        handler._deep_default = True
+        logger.addHandler(handler)
